@@ -13,8 +13,10 @@ from .eng_compile import emit, rustc
 U = ['\x00', 'a', '\x7f', '\x80', '\u07ff', '\u0800', '\ud7ff', '\ue000', '\uffff', '\U00010000', '\U0010ffff', '\n', '\r']
 
 CAT = '흑 흑♥ 항. 형. 하앙 흣.... 항♥?'
+# test-first copier (written by a seeding sub-agent): no trailer, except that empty input yields one NaN text
+CAT2 = '흑 흣...💘 흣.? 흑 흣...💘?'
 PROGRAMS = [('copy1', '흑 항.'), ('copy2', '흑 항. 항.'), ('copy3', '흑 항. 항. 항.'), ('copy4', '흑 항. 항. 항. 항.'),
-            ('cat', CAT), ('cat-stderr', '흑 흑♥ 항.. 형. 하앙 흣.... 항♥?')]
+            ('cat', CAT), ('cat-stderr', '흑 흑♥ 항.. 형. 하앙 흣.... 항♥?'), ('cat2', CAT2)]
 
 
 def expected_output(name, text):
@@ -23,6 +25,8 @@ def expected_output(name, text):
         k = int(name[4:])
         chars = list(text[:k])
         return ''.join(chars) + R.NAN_TEXT * (k - len(chars))
+    if name == 'cat2':
+        return text if text else R.NAN_TEXT
     return text + R.NAN_TEXT
 
 
@@ -135,6 +139,9 @@ def bulk_texts(tier):
     out.append(''.join(edge) + '\n')
     out.append('\n' * 50)
     out.append('x' * 70000)                    # longer than a pipe buffer, no terminator
+    out.append('가' * 30000)                    # one 90000-byte line of 3-byte characters
+    out.append('x' * 65535 + '가\n' + 'y' * 65534 + '\U0001F600z\n')   # multi-byte characters across 64 KiB boundaries
+    out.append('x' * 65534 + '가' + 'y' * 9)
     out.append(('가나다' * 3000 + '\n') * 3)
     if tier != 'quick':
         allsc = scalars(0, 0x110000)
@@ -162,7 +169,7 @@ def run_c14(tier):
     if not problems:
         bulk = bulk_texts(tier)
         for t in bulk:
-            for nm in ('cat', 'copy3', 'cat-stderr'):
+            for nm in ('cat', 'copy3', 'cat-stderr', 'cat2'):
                 tasks.append((d, [t], [nm]))
         if tier == 'quick':
             # all texts of length <= 2 through every program; length 3 through cat and copy2
